@@ -130,6 +130,10 @@ def monitors(spec, events, obs, trace, quiescent):
                 deps_ok = all(d[0] != "j" or last["states"][eff(d[1])] == "DONE" for d in jobs[j]["deps"])
                 if toks_ok and deps_ok:
                     add("C09", "waiting-job-never-launched", f"job {j} waits forever although its dependencies are satisfied and its token requests fit")
+                failed_dep = [d[1] for d in jobs[j]["deps"] if d[0] == "j" and last["futures"][eff(d[1])] == "ERROR"]
+                if failed_dep:
+                    add("C07", "dependent-never-cancelled", f"job {j} depends on job {failed_dep[0]}, which ended in error, but it is never cancelled: "
+                                                            f"it stays {last['states'][j]} for ever and the experiment cannot report the failure")
         if last["waiter"] == "pending":
             add("C06", "wait-hangs", f"experiment.wait() never returns (unfinished={last['unfinished']})")
         if last["unfinished"] != 0 and not any(f == "pending" for f in last["futures"]):
